@@ -114,6 +114,16 @@ def grep_forbidden() -> List[str]:
             txt = re.sub(r"\(\*[^*(]*(?:\*(?!\))[^*(]*|\((?!\*)[^*(]*)*\*\)", " ", txt)
         for m in FORBIDDEN.finditer(txt):
             hits.append(f"{f}: {m.group(0)}")
+        # Variable / Hypothesis / Context outside a section declare axioms
+        depth = 0
+        for sentence in re.split(r"\.\s", txt):
+            st = sentence.strip()
+            if re.match(r"Section\s+\w+$", st):
+                depth += 1
+            elif re.match(r"End\s+\w+$", st) and depth > 0:
+                depth -= 1
+            elif depth == 0 and re.match(r"(Variable|Variables|Hypothesis|Hypotheses|Context)\b", st):
+                hits.append(f"{f}: {st[:60]} (outside a section)")
     return hits
 
 
